@@ -29,6 +29,7 @@ type SOp struct {
 	Port  int    `json:"port,omitempty"` // offset or special
 	Group int    `json:"group,omitempty"` // 0 none, 1..2 group id
 	Key   int    `json:"key,omitempty"`
+	InFlight bool `json:"in_flight,omitempty"` // drop: a registration (tcp, server-chosen port) is sent right before the connection is closed
 }
 
 type SCase struct {
@@ -56,6 +57,8 @@ func genS(t *rapid.T) SCase {
 		case "squat", "unsquat":
 			op.Proto = rapid.SampledFrom([]string{"tcp", "udp"}).Draw(t, "proto")
 			op.Port = rapid.IntRange(0, 4).Draw(t, "port")
+		case "drop":
+			op.InFlight = rapid.Bool().Draw(t, "inflight")
 		}
 		c.Ops = append(c.Ops, op)
 	}
@@ -281,12 +284,19 @@ func runS(c SCase) error {
 			if ss == nil {
 				continue
 			}
+			if op.InFlight {
+				// a registration is on its way when the session ends: afterwards nothing of it may be left
+				_ = ss.sc.Send(&msg.NewProxy{ProxyName: fmt.Sprintf("inflight-%d-%d", op.Slot, i), ProxyType: "tcp", RemotePort: 0})
+			}
 			ss.sc.Close()
 			delete(slots, op.Slot)
 			for n, p := range live {
 				if p.slot == op.Slot {
 					removeProxy(n)
 				}
+			}
+			if op.InFlight {
+				time.Sleep(40 * time.Millisecond)
 			}
 			deadline := time.Now().Add(3 * time.Second)
 			for time.Now().Before(deadline) {
